@@ -898,11 +898,14 @@ def expand_locals(f, n, depth=0, all_locals=False):
     inits = _stable_local_inits(f, all_locals)
     if n["k"] == "DeclRefExpr" and n.get("declId") in inits:
         return expand_locals(f, strip(inits[n["declId"]]), depth + 1, all_locals)
-    if n["k"] in ("CallExpr", "CXXMemberCallExpr") and n.get("calleeId") and getattr(f, "_owner", None) is not None:
+    if n["k"] in ("CallExpr", "CXXMemberCallExpr", "CXXOperatorCallExpr") and n.get("calleeId") and getattr(f, "_owner", None) is not None \
+            and (n["k"] != "CXXOperatorCallExpr" or n.get("op") == "()"):
         g = f._owner._by_id.get(n["calleeId"])
         if g is not None and g is not f:
             e = _pure_predicate(g)
             a = call_args(n)
+            if n["k"] == "CXXOperatorCallExpr":
+                a = a[1:]                # the closure object comes first
             if e is not None and len(a) == len(g.params) and len(a) >= 1:
                 binding = {p["declId"]: strip(expand_locals(f, x, depth + 1, all_locals)) for p, x in zip(g.params, a)}
                 return {"k": "ParenExpr", "i": n.get("i"), "l": n.get("l"), "c": [_subst_params(strip(e), binding)]}
